@@ -31,6 +31,26 @@ Definition hi_local : Z := 253402300800.
 Definition in_range (t off : Z) : bool := (lo_local <=? t + off) && (t + off <? hi_local).
 
 (* ---- timeattr ---- *)
+Definition check_attr_key (key : bytes) (day cy cm : Z) (o : bytes) : bool :=
+  if bytes_eqb key (s2b "QUARTER") then
+    match atoi o with Some q => quarter_spec_b cm q && bytes_eqb o (itoa q) | None => false end
+  else if bytes_eqb key (s2b "WEEKDAY") then
+    match atoi o with
+    | Some w => (0 <=? w) && (w <=? 6) && ((day + 4 - w) mod 7 =? 0) && bytes_eqb o (itoa w)
+    | None => false end
+  else if bytes_eqb key (s2b "WEEK") then
+    match atoi o with
+    | Some w => existsb (fun y => iso_spec_b day y w) [cy - 1; cy; cy + 1] && bytes_eqb o (itoa w)
+    | None => false end
+  else if bytes_eqb key (s2b "YEARWEEK") then
+    match split_last_dash o with
+    | Some (ys, ws) =>
+        match atoi ys, atoi ws with
+        | Some y, Some w => iso_spec_b day y w && bytes_eqb o (itoa y ++ [45%N] ++ itoa w)
+        | _, _ => false end
+    | None => false end
+  else false.
+
 Definition C18_check_attr (arg attr : bytes) (off : Z) (o : bytes) : bool :=
   let key := upper attr in
   if negb (existsb (bytes_eqb key) timeAttrKeys) then bytes_eqb o compile_error else
@@ -39,24 +59,7 @@ Definition C18_check_attr (arg attr : bytes) (off : Z) (o : bytes) : bool :=
   | Some t =>
       let day := local_secs t off / 86400 in
       let '(cy, cm, _) := civil_from_days day in
-      if bytes_eqb key (s2b "QUARTER") then
-        match atoi o with Some q => quarter_spec_b cm q && bytes_eqb o (itoa q) | None => false end
-      else if bytes_eqb key (s2b "WEEKDAY") then
-        match atoi o with
-        | Some w => (0 <=? w) && (w <=? 6) && ((day + 4 - w) mod 7 =? 0) && bytes_eqb o (itoa w)
-        | None => false end
-      else if bytes_eqb key (s2b "WEEK") then
-        match atoi o with
-        | Some w => existsb (fun y => iso_spec_b day y w) [cy - 1; cy; cy + 1] && bytes_eqb o (itoa w)
-        | None => false end
-      else if bytes_eqb key (s2b "YEARWEEK") then
-        match split_last_dash o with
-        | Some (ys, ws) =>
-            match atoi ys, atoi ws with
-            | Some y, Some w => iso_spec_b day y w && bytes_eqb o (itoa y ++ [45%N] ++ itoa w)
-            | _, _ => false end
-        | None => false end
-      else false
+      check_attr_key key day cy cm o
   end.
 
 (* ---- timeformat: the calendar fields of the instant, and — for the named formats that hold
@@ -82,5 +85,24 @@ Definition C18_check_durationformat (arg o : bytes) : bool :=
   match atoi arg with
   | Some secs => if (- max_whole_secs <=? secs) && (secs <=? max_whole_secs)
                  then bytes_eqb (kf_duration o) (itoa secs) else true
+  | None => true
+  end.
+
+(* ---- buckettime: the documented bucket names (docs/usage/expressions.md: *n*ano, *s*econd, *m*inute,
+        *h*our, *d*ay, *mo*nth, *y*ear and the full words) select the layout of that precision ---- *)
+Definition doc_buckets : list (bytes * bytes) :=
+  map (fun p => (s2b (fst p), s2b (snd p)))
+    [("n", "2006-01-02 15:04:05.999999999"); ("nanos", "2006-01-02 15:04:05.999999999");
+     ("s", "2006-01-02 15:04:05"); ("seconds", "2006-01-02 15:04:05");
+     ("m", "2006-01-02 15:04"); ("minutes", "2006-01-02 15:04");
+     ("h", "2006-01-02 15"); ("hours", "2006-01-02 15");
+     ("d", "2006-01-02"); ("days", "2006-01-02");
+     ("mo", "2006-01"); ("months", "2006-01");
+     ("y", "2006"); ("years", "2006")]%string.
+
+Definition C18_check_bucket (str bucket fmt : bytes) (names : list (bytes * Z)) (locoff finoff : Z) (o : bytes) : bool :=
+  bytes_eqb (kf_buckettime str bucket fmt names locoff finoff) o &&
+  match assoc_b (lower bucket) doc_buckets with
+  | Some l => match bucket_layout bucket with Some l' => bytes_eqb l l' | None => false end
   | None => true
   end.
